@@ -212,6 +212,11 @@ type c15wScenario struct {
 	// PreQuick and PreThorough are the preemption bounds of the two tiers; a
 	// negative bound means that the scenario does not run in that tier.
 	PreQuick, PreThorough int
+	// FailedOpens is the number of sequential Writes that precede the
+	// concurrent writers on the same FileSystem while the directory of the log
+	// path does not exist yet: os.OpenFile fails, Write must return an error
+	// and leave no line.  The directory is created before the writers start.
+	FailedOpens int
 }
 
 var c15wScenarios = []c15wScenario{
@@ -224,12 +229,24 @@ var c15wScenarios = []c15wScenario{
 	// and >2.9 million executions with 3).
 	{Name: "3w-2+2+1", Writers: [][]int{{0, 3}, {1, 4}, {2}}, PreQuick: -1, PreThorough: 2},
 	{Name: "3w-2+2+2", Writers: [][]int{{0, 3}, {1, 4}, {2, 5}}, PreQuick: -1, PreThorough: 2},
+	// A failed open FOLLOWED by concurrent writers: whatever the error path
+	// did to the pooled buffer meets two writers in flight.
+	{Name: "fo1-2w-1+1", FailedOpens: 1, Writers: [][]int{{0}, {1}}, PreQuick: 2, PreThorough: 3},
+	{Name: "fo2-2w-2+1", FailedOpens: 2, Writers: [][]int{{0, 2}, {1}}, PreQuick: 2, PreThorough: 3},
+	{Name: "fo1-2w-2+2", FailedOpens: 1, Writers: [][]int{{0, 2}, {1, 3}}, PreQuick: 2, PreThorough: 3},
+	{Name: "fo1-3w-1+1+1", FailedOpens: 1, Writers: [][]int{{0}, {1}, {2}}, PreQuick: -1, PreThorough: 3},
+	{Name: "fo2-3w-2+1+1", FailedOpens: 2, Writers: [][]int{{0, 3}, {1}, {2}}, PreQuick: -1, PreThorough: 2},
 }
+
+// c15wFailedOpenSpecs are the entries of the Writes whose open fails.
+var c15wFailedOpenSpecs = []int{5, 4}
 
 type c15wEnv struct {
 	sc   c15wScenario
 	path string
 	errs []string
+	// pre are the complaints about the sequential prelude.
+	pre []string
 }
 
 var (
@@ -239,8 +256,9 @@ var (
 
 func c15wSetup(sc c15wScenario, s *xsched.Sched) (env *c15wEnv) {
 	c15wSeq++
-	env = &c15wEnv{sc: sc, path: filepath.Join(c15wDir, fmt.Sprintf("ql-%d.jsonl", c15wSeq%2))}
-	if err := os.Remove(env.path); err != nil && !os.IsNotExist(err) {
+	sub := filepath.Join(c15wDir, fmt.Sprintf("xs-%d", c15wSeq%2))
+	env = &c15wEnv{sc: sc, path: filepath.Join(sub, "ql.jsonl")}
+	if err := os.RemoveAll(sub); err != nil {
 		vrt.Fatalf("remove: %v", err)
 	}
 	l := NewFileSystem(&FileSystemConfig{
@@ -249,6 +267,17 @@ func c15wSetup(sc c15wScenario, s *xsched.Sched) (env *c15wEnv) {
 		RandSeed: 1,
 	})
 	ctx := context.Background()
+	// Sequential prelude (no task runs yet, the scheduling points are
+	// no-ops): Writes whose open fails because the directory is missing.
+	for k := 0; k < sc.FailedOpens; k++ {
+		si := c15wFailedOpenSpecs[k%len(c15wFailedOpenSpecs)]
+		if err := l.Write(ctx, c15wSpecs[si].entry()); err == nil {
+			env.pre = append(env.pre, fmt.Sprintf("prelude Write %d (entry %d) returned nil although the directory of the log path does not exist", k+1, si))
+		}
+	}
+	if err := os.MkdirAll(sub, 0o755); err != nil {
+		vrt.Fatalf("mkdir: %v", err)
+	}
 	for i, idxs := range sc.Writers {
 		s.Go(fmt.Sprintf("W%d", i+1), func() {
 			for _, si := range idxs {
@@ -275,6 +304,9 @@ func c15wCheck(env *c15wEnv, x *xsched.Exec) (fs []vrt.Finding, order string) {
 	}
 	if x.Sched.LimitHit {
 		return vrt.F("querylog-file/livelock", "step limit hit"), "livelock"
+	}
+	if len(env.pre) > 0 {
+		return vrt.F("querylog-file/failed-write-reported-success", "%q", env.pre), "prelude"
 	}
 	if len(env.errs) > 0 {
 		return vrt.F("querylog-file/write-failed", "Write returned an error: %q", env.errs), "error"
